@@ -240,6 +240,90 @@ fn run_scenario(sc: &Scenario, out_violations: &Mutex<Vec<(String, String)>>) ->
     (reloads, reads.load(Ordering::SeqCst))
 }
 
+/// A reload replaces the whole value, whatever its layout: values of alignment 1 to 64 (sizes that
+/// are several words, and an odd number of bytes for the byte-aligned one) are loaded, edited and
+/// reloaded; afterwards every part of the value shows the new content and the value that was
+/// replaced has been dropped exactly once, the new one not at all.
+fn layout_scenario(out: &Mutex<Vec<(String, String)>>) -> u64 {
+    use std::sync::atomic::AtomicUsize;
+    static DROPS: [AtomicUsize; 8] = [
+        AtomicUsize::new(0), AtomicUsize::new(0), AtomicUsize::new(0), AtomicUsize::new(0),
+        AtomicUsize::new(0), AtomicUsize::new(0), AtomicUsize::new(0), AtomicUsize::new(0),
+    ];
+    macro_rules! aligned {
+        ($name:ident, $loader:ident, $n:literal, $ext:literal, $slot:literal, $word:ty, $len:literal) => {
+            #[repr(C, align($n))]
+            struct $name {
+                w: [$word; $len],
+                gen: u8,
+            }
+            impl Drop for $name {
+                fn drop(&mut self) {
+                    if self.gen == 1 {
+                        DROPS[$slot].fetch_add(1, Ordering::SeqCst);
+                    }
+                }
+            }
+            struct $loader;
+            impl assets_manager::loader::Loader<$name> for $loader {
+                fn load(content: std::borrow::Cow<[u8]>, _: &str) -> Result<$name, assets_manager::BoxedError> {
+                    let n = parse_int(&content)? as u8;
+                    Ok($name { w: [n as $word; $len], gen: n })
+                }
+            }
+            impl assets_manager::Asset for $name {
+                const EXTENSION: &'static str = $ext;
+                type Loader = $loader;
+            }
+        };
+    }
+    aligned!(A1, A1L, 1, "a1", 0, u8, 13);
+    aligned!(A2, A2L, 2, "a2", 1, u16, 7);
+    aligned!(A4, A4L, 4, "a4", 2, u32, 5);
+    aligned!(A8, A8L, 8, "a8", 3, u64, 5);
+    aligned!(A16, A16L, 16, "a16", 4, u64, 5);
+    aligned!(A32, A32L, 32, "a32", 5, u64, 3);
+    aligned!(A64, A64L, 64, "a64", 6, u64, 9);
+    aligned!(A16B, A16BL, 16, "a16b", 7, u128, 3);
+    let mem = Mem::new(true);
+    let cache = AssetCache::with_source(mem.clone());
+    let mut n = 0;
+    macro_rules! round {
+        ($name:ident, $ext:literal, $slot:literal, $what:literal) => {{
+            n += 1;
+            mem.write("v", $ext, b"1");
+            if let Ok(h) = cache.load::<$name>("v") {
+                mem.write("v", $ext, b"2");
+                let target = EVENTS_HANDLED.load(Ordering::SeqCst) + 1;
+                if mem.send(vec![OwnedDirEntry::File("v".into(), $ext.into())]) && wait_events(target) {
+                    cache.hot_reload();
+                    let g = h.read();
+                    let whole = g.gen == 2 && g.w.iter().all(|x| *x == 2);
+                    let drops = DROPS[$slot].load(Ordering::SeqCst);
+                    if !whole || drops != 1 {
+                        out.lock().unwrap().push((
+                            "torn-read".to_string(),
+                            format!(
+                                "a value of {} reloaded from 1 to 2: afterwards gen = {}, words = {:?}; the replaced value was dropped {} time(s)",
+                                $what, g.gen, g.w.iter().map(|x| *x as u64).collect::<Vec<_>>(), drops
+                            ),
+                        ));
+                    }
+                }
+            }
+        }};
+    }
+    round!(A1, "a1", 0, "alignment 1 (14 bytes)");
+    round!(A2, "a2", 1, "alignment 2");
+    round!(A4, "a4", 2, "alignment 4");
+    round!(A8, "a8", 3, "alignment 8");
+    round!(A16, "a16", 4, "alignment 16");
+    round!(A32, "a32", 5, "alignment 32");
+    round!(A64, "a64", 6, "alignment 64");
+    round!(A16B, "a16b", 7, "alignment 16 (u128 words)");
+    n
+}
+
 pub fn run(a: &Args) {
     let ms = if a.thorough() { 8000 } else { 1200 };
     let scenarios = vec![
@@ -263,6 +347,7 @@ pub fn run(a: &Args) {
             sc.readers_short, sc.readers_long, sc.readers_mapped, sc.pollers, sc.copiers, r, rd
         ));
     }
+    n += layout_scenario(&violations);
     let v = violations.into_inner().unwrap();
     if !v.is_empty() {
         let mut f = String::new();
